@@ -153,7 +153,23 @@ class Program:
         if mm: targ = [a for a in split_top(mm.group(1)) if a]
         base = st
         while base.kind in ("ref",): base = base.args[0]
-        if base.kind != "adt": return None
+        if base.kind != "adt":
+            # <u8 as From<RepoType>>::from : identified by parameter and return type
+            if tname in ("From", "TryFrom") and targ and base.kind in ("int", "bool", "array"):
+                want_p, want_r = _last_ty(targ[0]), repr(base)
+                out = []
+                for c2 in self.fns:
+                    for f in self.by_last.get(c2, {}).get(method, []):
+                        if "<impl at" in f.name and len(f.params) == 1 and _last_ty(f.params[0][1]) == want_p \
+                                and re.search(r"(^|[<( ])" + re.escape(want_r) + r"($|[>,) ])", f.ret):
+                            out.append(f)
+                if len(out) > 1:
+                    mod = "::".join(strip_generics(targ[0]).split("::")[:-1])
+                    o2 = [f for f in out if mod and (f.params[0][1].lstrip("&").startswith(mod + "::") or f.name.startswith(mod + "::"))]
+                    if len(o2) == 1: return o2[0]
+                    raise Unmodelled(f"ambiguous <{selfty} as {trait}>::{method}: {[f.name for f in out]}")
+                return out[0] if out else None
+            return None
         segs = base.name.split("::")
         tcrate = crate
         if segs[0] in CRATE_ALIASES: tcrate, segs = CRATE_ALIASES[segs[0]], segs[1:]
@@ -174,6 +190,14 @@ class Program:
                 else:
                     if f.params and _self_is(f.params[0][1], tyname): out.append(f)
                     elif not f.params and _last_ty(f.ret) == tyname: out.append(f)
+            if not out:
+                # associated function without self (e.g. TryFromBytes::try_from_bytes): by return type
+                full = "::".join(segs)
+                for f in self.by_last.get(c2, {}).get(method, []):
+                    if "<impl at" not in f.name or "{closure" in f.name: continue
+                    if f.params and _self_is(f.params[0][1], tyname): continue
+                    if re.search(r"(^|[<( ])" + re.escape(full) + r"($|[>,) ])", f.ret):
+                        out.append(f)
             if out: break
         if len(out) == 1: return out[0]
         if len(out) > 1:
